@@ -215,6 +215,11 @@ func (x *Exec) nativeCall(fr *Frame, fn *ssa.Function, nf interface{}, args []Va
 	for k := 0; k < ft.NumIn(); k++ {
 		opts, ok := x.toNative(args[k], ft.In(k))
 		if !ok {
+			if strings.HasPrefix(fn.String(), "strconv.Format") || fn.String() == "strconv.Itoa" {
+				// number formatting of a symbolic value (log / message text): opaque string
+				x.warnings["opaque string from "+fn.String()]++
+				return concreteStr("<num>")
+			}
 			notEncodable("native call %s: argument %d is not concrete enough (%s) at %s", fn, k, describe(args[k]), x.framePos(fr, p))
 		}
 		var nc []struct {
